@@ -107,7 +107,7 @@ def _novel_near_tie(rng):
                 "noise": [{"vid": orphan[0]["vars"][0], "frac": 1.0},
                           {"vid": x["vars"][0], "frac": rng.choice([0.51, 0.52, 0.53, 0.54, 0.56])}]},
                {"type": "normal", "allele": "1.001"}]}}
-    return {"world": world, "samples": {"s0": smp}, "params": {"gap": rng.choice([0.3, 0.5, 1.0]), "max_minor_solutions": 1},
+    return {"world": world, "samples": {"s0": smp}, "params": {"gap": rng.choice([2.0, 3.0]), "max_minor_solutions": 1},
             "build": "hg19", "out": rng.choice(["aldy", "vcf", "simple", "none"]), "hashseed": rng.choice([0, 1, 2, 3]),
             "adversary": None}
 
